@@ -30,6 +30,7 @@ impl Rng {
         match self.below(10) {
             0..=4 => *self.pick(BOUNDARY),
             5..=7 => self.range(-20, 40),
+            8 => self.range(0, 70).wrapping_add(*self.pick(&[1i64 << 8, 1 << 16, 1 << 32, 5 << 32, 0x7FFF_FFFF_0000_0000, i64::MIN])),
             _ => self.next() as i64,
         }
     }
